@@ -2,6 +2,7 @@ import KVerif.Drv.C10
 import KVerif.Drv.Lay
 import KVerif.Drv.C04
 import KVerif.Drv.C13
+import KVerif.Drv.C05
 open KVerif.Drv
 
 /-- kvdrv <prop>: one case line in, one `M <model> ## S <spec>` line out. -/
@@ -10,6 +11,8 @@ def dispatch (prop : String) : Option (String → String × String) :=
   | "C10" => some C10.run
   | "C04" => some C04.run
   | "C13" => some C13.run
+  | "C05" => some C05.run
+  | "C05o" => some C05.runOracle
   | "LALL" => some (Lay.run "LAY")
   | _ => none
 
